@@ -65,7 +65,7 @@ def gen_classes(rng, n_comp=(1, 6), n_proc=(0, 4), handlers=0.5, ctrl=0.15, diam
 
 
 def gen_scenario(rng, ops_range=(1, 25), w=None, raises=0.0, dup_in_create=0.0, clear_disabled=True,
-                 raise_plain=False,
+                 raise_plain=False, reacts=0.0, forget=0.0,
                  **ckw):
     w = {**dict(create=4, add=5, remove=4, delete=3, process=2, clear=0.5, addproc=2, rmproc=1, enable=1.5,
                 dispatch=1.5), **(w or {})}
@@ -117,6 +117,16 @@ def gen_scenario(rng, ops_range=(1, 25), w=None, raises=0.0, dup_in_create=0.0, 
             if meths:
                 lines.append(f'raise {o} {rng.choice(meths)} {rng.randint(0, 2 if raise_plain else 1)} '
                              f'{rng.choice(["E0", "Quit"])}')
+    if reacts and rng.random() < reacts:
+        # callbacks that call world.delete_entity(e) themselves (deferred deletion from inside on_remove,
+        # on_add, a processor or a plain event callback)
+        for _ in range(rng.randint(1, 3)):
+            o = rng.choice(list(objs))
+            m = maps[objs[o]] or {}
+            pool = ([m['on_remove']] * 3 if 'on_remove' in m else []) + [v for v in m.values()] + (
+                ['process'] if objs[o] in ptys else [])
+            if pool:
+                lines.append(f'react {o} {rng.choice(pool)} {rng.randint(0, 1)} delete {rng.choice(ENTS)}')
     lines.append('ents ' + ','.join(map(str, ENTS)))
     attached = {}       # obj -> entity (generator-side approximation, to respect OneOwner)
     live = set()
@@ -124,6 +134,11 @@ def gen_scenario(rng, ops_range=(1, 25), w=None, raises=0.0, dup_in_create=0.0, 
     kindsw = [k for k in w for _ in range(int(w[k] * 2))]
     ops = []
     for _ in range(rng.randint(*ops_range)):
+        if forget and rng.random() < forget and (comp_objs or proc_objs):
+            o = rng.choice(comp_objs + proc_objs)
+            ops.append(f'forget {o}')
+            comp_objs = [x for x in comp_objs if x != o]
+            proc_objs = [x for x in proc_objs if x != o]
         k = rng.choice(kindsw)
         freec = [o for o in comp_objs if o not in attached]
         if k == 'create':
